@@ -10,7 +10,7 @@ import (
 	"github.com/makiuchi-d/gozxing"
 )
 
-var kinds = []string{"Gray", "GraySub0", "GraySubOff", "RGBA", "RGBASub", "NRGBA", "Paletted", "PalettedSub", "Custom", "RGBints", "YUV", "YUVrev", "YUVoff", "YUVoffrev"}
+var kinds = []string{"Gray", "GraySub0", "GraySubOff", "RGBA", "RGBASub", "NRGBA", "Paletted", "PalettedSub", "YCbCr", "YCbCrSubOff", "Custom", "RGBints", "YUV", "YUVrev", "YUVoff", "YUVoffrev"}
 
 // baseOf names the implementation class behind a source kind (used in violation keys: the Go
 // image kinds share one implementation, so do the YUV kinds).
@@ -122,6 +122,29 @@ func buildSource(kind string, w, h int) *built {
 		for y := 0; y < h; y++ {
 			for x := 0; x < w; x++ {
 				parent.SetGray(ox+x, oy+y, color.Gray{Y: b.want[y][x]})
+			}
+		}
+		b.src = gozxing.NewLuminanceSourceFromImage(parent.SubImage(image.Rect(ox, oy, ox+w, oy+h)))
+	case "YCbCr", "YCbCrSubOff":
+		// what image/jpeg decodes to; grey content (Cb = Cr = 128), so the colour conversion gives
+		// R = G = B = Y and the luminance is the Y sample. "SubOff" is a window with a non-zero
+		// origin into a larger 4:2:0 frame whose other samples differ.
+		ox, oy, ratio := 0, 0, image.YCbCrSubsampleRatio444
+		pw, ph := w, h
+		if kind == "YCbCrSubOff" {
+			ox, oy, ratio = 3, 2, image.YCbCrSubsampleRatio420
+			pw, ph = ox+w+4, oy+h+3
+		}
+		parent := image.NewYCbCr(image.Rect(0, 0, pw, ph), ratio)
+		for i := range parent.Y {
+			parent.Y[i] = uint8(53 + 13*i)
+		}
+		for i := range parent.Cb {
+			parent.Cb[i], parent.Cr[i] = 128, 128
+		}
+		for y := 0; y < h; y++ {
+			for x := 0; x < w; x++ {
+				parent.Y[parent.YOffset(ox+x, oy+y)] = b.want[y][x]
 			}
 		}
 		b.src = gozxing.NewLuminanceSourceFromImage(parent.SubImage(image.Rect(ox, oy, ox+w, oy+h)))
